@@ -130,6 +130,7 @@ def minc_case():
                 'host_standin': draw(st.booleans()),
                 # the grid may have been put in another block order before MINC is applied
                 'pre': draw(st.sampled_from(['none', 'none', 'reverse', 'rotate', 'demote-first'])),
+                'select_form': draw(st.sampled_from(['names', 'names', 'objects', 'own-list', 'none'])),
                 # the embedded grid may itself come from a geometry, with atmosphere blocks (of a small volume)
                 'sub': draw(st.sampled_from(['blocks', 'blocks', 'geo-atm0', 'geo-atm1', 'geo-atm2']))}
     return s()
@@ -323,7 +324,13 @@ def run_minc(case, R):
     collide = len(set(new)) != len(new) or bool(set(new) & set(names0))
     try:
         with R.lib('minc'):
-            grid.minc(vf, spacing=case['spacing'], num_fracture_planes=case['nfp'], blocks=list(target))
+            form = case.get('select_form', 'names')
+            R.label('minc:selection-as-' + (form if (sel or form != 'own-list') else 'the-grid-own-block-list'))
+            if form == 'objects': arg = [grid.block[n] for n in target]
+            elif form == 'own-list' and not sel: arg = grid.blocklist          # "all blocks", said with the grid's own list
+            elif form == 'none' and not sel: arg = None
+            else: arg = list(target)
+            grid.minc(vf, spacing=case['spacing'], num_fracture_planes=case['nfp'], blocks=arg)
     except Exception as e:
         if type(e).__name__ == 'Aborted' and collide and R.findings and 'Duplicate MINC matrix block name' in R.findings[-1][1]:
             R.findings.pop(); R.label('minc:refused-name-collision'); return
